@@ -17,7 +17,7 @@ SPEC = dict(
     drivers=[dict(name='parinit', drv_mod='Drv.ParInit', drv_file='Drv/ParInit.v', shard=40,
                   args={'quick': ['n=24', 'nfresh=5'], 'thorough': ['n=240', 'nfresh=40']}, timeout={'quick': 600, 'thorough': 3000})],
     rule='2..4 real DefaultFanController.Run started concurrently (one goroutine each, one shared bbolt file) on fake fans that all need '
-         'analysis (hwmon: sweep + RPM measurement; some with only the RPM curve missing; some file fans sweeping inside Run), quantising '
+         'analysis (hwmon: sweep + RPM measurement; some with only the RPM curve missing; some file fans sweeping inside Run; some fans with a configured pwmMap, sparse or dense, which skip the sweep but still measure their RPM curve), quantising '
          'devices with 4..8 levels, settle times 0/1.5/3/6 s, start delays 0..4 s (configured times scaled 1/200 in real time), '
          'The option and every other top-level setting of the start-up path (dbPath, fanResponseDelay, maxRpmDiffForSettledFan, rpm/temp window sizes and rates) arrive through the REAL loader: the driver writes a fan2go.yaml (explicit `runFanInitializationInParallel: false` in two thirds of the cases, explicit true or absent otherwise), then viper.Reset, InitConfig, DetectAndReadConfigFile, LoadConfig, Validate as the daemon does, and never assigns configuration.CurrentConfig; the persistence of the controllers is built from the loaded dbPath (a real bbolt file in a writable directory). The expectation given to the model is what the FILE says (false => exclusive; true/absent => parallel allowed). Plus simultaneous VERY FIRST analyses: trials of 3..4 fans whose RunInitializationSequence (what `fan init` does: delete both entries, run the sequence on a fresh controller, real persistence) are released at the same instant by a spin barrier, each trial in a FRESH process (the driver re-executes its own binary), judged with the init_cmd programs of the model (case field c_init). Every second sequential case is special: (1) the analysis of the first fan FAILS midway (injected PWM write error in the measurement loop, or RPM read error at the third level) while 2..3 others are queued; (2) an already analysed fan fails in its control loop right after start (curve error -> restorePwmEnabled) while the next fan is analysed and others wait; (3) one slow-settling fan (30..60 s) with fanResponseDelay 0 or 1. (4) shutdown: the contexts of all controllers are cancelled while the first fan is analysed (during its sweep, its settle phase or its RPM measurement) and 1..2 others are queued behind it; intervals are judged up to the moment every Run has returned; these starts are not compared with the model (c_faulty). Timers created by controller.go (time.After/NewTimer/AfterFunc) run on the same scaled time base as its sleeps. Observed per fan: the classified start-up actions and the interval '
          '[first PWM/mode write or RPM read, last device access or map/data save] before its first regulation cycle -- for a controller whose Run returned without regulating: up to the END of the run, i.e. including accesses by goroutines that outlive RunInitializationSequence; accesses made inside restorePwmEnabled (bracketed by build-time markers) are not analysis -- in the order of a global '
